@@ -152,6 +152,8 @@ type World struct {
 	// GroupTaint: groups whose tracked usage is not compared (listed known finding, see GroupUsageLostShape)
 	GroupTaint map[string]bool
 	AppTaint   map[string]bool
+	// ResizedMidSwap: real asks the RM resized while they were replacing a placeholder
+	ResizedMidSwap map[string]bool
 }
 
 var worldMu sync.Mutex // one world at a time: the core has process wide singletons
